@@ -2,6 +2,7 @@
 // Line and history buffers are exact-size heap blocks (ASan).
 #include "C15_iface.h"
 #include <igris/shell/vterm.h>
+#include <cstring>
 #include <memory>
 
 namespace
@@ -11,18 +12,22 @@ namespace
         vterm_automate vt;
         std::unique_ptr<char[]> line, hist;
         TermSink *sink = nullptr;
+        bool first_start = true;
         static void w(void *p, const char *d, unsigned n) { ((TermC *)p)->sink->on_write(d, n); }
         static void e(void *p, const char *d, unsigned n) { ((TermC *)p)->sink->on_execute(d, n); }
         static void s(void *p, int sig) { ((TermC *)p)->sink->on_signal(sig); }
-        void start(unsigned cap, unsigned h, TermSink *sk, const char *prompt, bool echo) override
+        void start(unsigned cap, unsigned h, TermSink *sk, const char *prompt, bool echo, unsigned flags = 0) override
         {
             sink = sk;
             line.reset(new char[cap]);
             hist.reset(new char[(size_t)cap * h]);
+            static const unsigned char fills[4] = {0x00, 0xA5, 0xFF, 0x01};
+            if (first_start) memset((void *)&vt, fills[(flags >> 1) & 3], sizeof vt); // dirty storage (a re-init keeps what the last session left)
+            first_start = false;
             vterm_automate_init(&vt, line.get(), cap, hist.get(), h);
             vterm_set_write_callback(&vt, w, this);
             vterm_set_execute_callback(&vt, e, this);
-            vterm_set_signal_callback(&vt, s, this);
+            if (!(flags & 1)) vterm_set_signal_callback(&vt, s, this);
             vt.prefix_string = prompt;
             vt.echo = echo ? 1 : 0;
             vterm_automate_init_step(&vt);
